@@ -1,6 +1,6 @@
 #!/bin/sh
 # usage: tools/try_mutant.sh <patch.diff> <Cxx> [extra check args]   -- applies the patch to /repo, runs the check, reverts
-PATCH="$1"; PROP="$2"; shift 2
+PATCH="$(readlink -f "$1")"; PROP="$2"; shift 2
 cd /repo || exit 2
 if ! git diff --quiet; then echo "/repo is dirty"; exit 2; fi
 git apply "$PATCH" || { echo "patch does not apply"; exit 2; }
